@@ -122,7 +122,7 @@ def _key(arg):
     return hashlib.md5(sx(arg).encode()).digest()
 
 def _needs_run(cmds):
-    return 'read' in [S(c[0]).lower() for c in cmds] or 'format.name$' in U.all_names(cmds)
+    return 'read' in [S(c[0]).lower() for c in cmds]
 
 def _oracle_data(arg):
     """what READ finds and what format_name returns, measured on the implementation; a failure of the measuring
@@ -130,7 +130,7 @@ def _oracle_data(arg):
     for attempt in range(3):
         try:
             _, info = _execute(arg, want_info=True)
-            return (info['reads'], U.fmt_table(info['fmt']))
+            return (info['reads'], [])
         except Exception:
             continue
     return ([], [])
@@ -148,11 +148,11 @@ def model_arg(fn, arg):
     cmds = arg[0]
     names = U.all_names(cmds)
     reads, fmt, cw = [], [], []
-    if 'format.name$' in names or 'read' in [S(c[0]).lower() for c in cmds]:
+    if 'read' in [S(c[0]).lower() for c in cmds]:
         d = _ORACLE_DATA.get(_key(arg))
         if d is None:
             d = _oracle_data(arg)
-        reads, fmt = d
+        reads, _ = d
     if 'width$' in names:
         cw = U.cw_table(arg)
     return [cmds, arg[1], reads, fmt, cw, FUEL]
